@@ -64,14 +64,16 @@ def has_quantifier(e):
     if not isinstance(e, z3.ExprRef):
         return False
     k = e.get_id()
-    if k in _HQ_CACHE:
-        return _HQ_CACHE[k]
+    ent = _HQ_CACHE.get(k)
+    if ent is not None and ent[0].eq(e):
+        return ent[1]
     if z3.is_quantifier(e):
         r = True
     else:
         r = any(has_quantifier(ch) for ch in e.children())
     if len(_HQ_CACHE) < 200000:
-        _HQ_CACHE[k] = r
+        # the term is kept with the verdict: AST ids are reused once a term is collected
+        _HQ_CACHE[k] = (e, r)
     return r
 
 
@@ -655,6 +657,11 @@ class Frame:
     def st_While(self, st):
         self.loop_ord = self.loop_ids.get(id(st), -1)
         spec = self.I.world.loop_spec(self.qualname, self.loop_ord)
+        if spec is not None and self.ctx.opts.get('small_scope'):
+            # small scope: a guard that evaluates concretely is unrolled like a loop without invariant
+            c0 = O.simp(self.truth(self.ev(st.test)))
+            if not O.is_sym(c0):
+                spec = None
         if spec is None:
             # concrete unrolling
             n = 0
